@@ -61,13 +61,20 @@ def gen(seed: int, i: int, tier: str) -> dict:
         return {"cfg": {"pin": proto}, "kind": "short", "ops": [["line", h.format(v=proto)] for h in hist]}
     proto = rng.choice(G.PROTOS)
     nn = rng.randint(1, 4)
-    ids = rng.sample([1, 2, 3, 7, 9, 10, 99, 100, 254], nn)
+    ids = rng.sample([0, 1, 2, 3, 7, 9, 10, 99, 100, 254, 255], nn)
     children = rng.sample([0, 1, 2, 7, 9, 254], rng.randint(1, 3))
     if rng.random() < 0.3:
         children.append(ids[0])  # child id == node id: must not be confused
     types = rng.sample([0, 1, 2, 3, 16, 24, 38, 47], rng.randint(1, 3))
     scripts = [G.node_script(rng, proto, n, children, types, rng.randint(2, 14)) for n in ids]
     lines = G.merge(rng, scripts)
+    # gateway-side traffic between the nodes' lines: none of it may disturb the registry (except the placeholder
+    # of an id request, which the model adopts)
+    for _ in range(rng.randint(0, 4)):
+        lines.insert(rng.randint(0, len(lines)), rng.choice([
+            f"0;255;3;0;2;{proto}\n", "0;255;3;0;14;Gateway startup complete.\n", "0;255;3;0;9;TSF:MSG:READ,1-1-0\n",
+            "255;255;3;0;3;\n", f"{rng.choice(ids)};255;3;0;6;0\n", f"{rng.choice(ids)};255;3;0;1;\n",
+            f"0;255;0;0;18;{proto}\n"]))
     counts = {}
     swarm = rng.random()
     if swarm < 0.25:
